@@ -348,7 +348,9 @@ func runC30(c *Ctx) {
 			if _, zero := holds(e.Guards, wEQ("n == 0", 0, t(1, `^\$1$`))); zero {
 				continue
 			}
-			c.requireGuard("C30.read-loop", "_read succeeds only with the whole buffer filled", e.pos(), e.Guards, wGE("rn ≥ n", 0, t(1, `\.Read\(.*#0$`), t(1, `^phi\(`), t(-1, `^\$1$`)))
+			c.requireAny("C30.read-loop", "_read succeeds only with the whole buffer filled", e.pos(), e.Guards, "rn ≥ n",
+				wGE("rn ≥ n", 0, t(1, `\.Read\(.*#0$`), t(1, `^phi\(`), t(-1, `^\$1$`)),
+				wGE("rn ≥ n (loop condition form)", 0, t(1, `^phi\(`), t(-1, `^\$1$`)))
 		}
 		for _, cs := range c.calls(rd, byMethod("Read")) {
 			_, a := callArgs(cs.Common())
